@@ -84,7 +84,9 @@ Section Fragment.
   Inductive chain (typ : N) : halfConn -> list (list N) -> list (list N) -> halfConn -> Prop :=
   | chain_nil hc : chain typ hc [] [] hc
   | chain_cons hc hc1 hc2 eiv fr rec_ recs frs :
-      length eiv = explicit_len P (hc_cipher hc) -> bytes_ok eiv -> length fr <= maxPlaintext ->
+      length eiv = explicit_len P (hc_cipher hc) -> bytes_ok eiv ->
+      (kind (hc_cipher hc) = 1 -> eiv = hc_seq hc) ->      (* AEAD: the explicit nonce is the sequence number *)
+      length fr <= maxPlaintext ->
       encrypt P hc ([typ; 1; 1]%N ++ len_bytes (length fr) ++ eiv ++ fr) (length eiv)
         = Ok (hc1, rec_) ->
       chain typ hc1 recs frs hc2 -> chain typ hc (rec_ :: recs) (fr :: frs) hc2.
@@ -142,9 +144,10 @@ Section Fragment.
       split; [lia|]. split; [|split; [reflexivity|exact Herr]].
       cbn [out_with o_hc].
       assert (Hfl : length (firstn m0 data) = m0) by (rewrite firstn_length; lia).
-      eapply chain_cons with (eiv := firstn e (o_rand c)); [| | | |apply chain_nil].
+      eapply chain_cons with (eiv := firstn e (o_rand c)); [| | | | |apply chain_nil].
       + rewrite firstn_length, Ec. cbn [explicit_len]. lia.
       + apply bytes_ok_firstn; exact Hrand.
+      + rewrite Ec. cbn [kind]. discriminate.
       + rewrite Hfl. lia.
       + rewrite Hfl. rewrite firstn_length. replace (Nat.min e (length (o_rand c))) with e by lia.
         cbn [app] in Ee |- *. exact Ee.
@@ -166,9 +169,10 @@ Section Fragment.
       split; [lia|]. split; [|split; [reflexivity|exact Herr]].
       cbn [out_with o_hc].
       assert (Hfl : length (firstn m0 data) = m0) by (rewrite firstn_length; lia).
-      eapply chain_cons with (eiv := firstn 8 (hc_seq hc)); [| | | |apply chain_nil].
+      eapply chain_cons with (eiv := firstn 8 (hc_seq hc)); [| | | | |apply chain_nil].
       + rewrite firstn_length, Ec. cbn [explicit_len]. lia.
       + apply bytes_ok_firstn. rewrite Hseq. apply be_bytes_ok.
+      + intros _. apply firstn_all2. lia.
       + rewrite Hfl. lia.
       + rewrite Hfl. rewrite firstn_length. replace (Nat.min 8 (length (hc_seq hc))) with 8 by lia.
         cbn [app] in Ee |- *. exact Ee.
@@ -297,7 +301,7 @@ Section Fragment.
           (do '(rest, c2) <- recv_all P rounds (S fuel) (mkIn hcR' VersionGMSSL tail None warn' alerts trace');
            Ok (concat frs ++ rest, c2)).
   Proof.
-    induction 1 as [hc|hc hc1 hc2 eiv fr rec_ recs frs He Heb Hfr Henc Hch IH];
+    induction 1 as [hc|hc hc1 hc2 eiv fr rec_ recs frs He Heb Hnon Hfr Henc Hch IH];
       intros s hcR Hk Hs Hb Hv Herr Hbytes tail warn alerts trace rounds fuel.
     - exists hcR, warn, trace. split; [exact Herr|]. split; [exact Hv|]. split; [exact Hk|].
       cbn [length concat app Nat.add]. symmetry. apply obind_ret.
